@@ -47,10 +47,17 @@ pub fn run_child(c: &BigCase, timeout: Duration) -> ChildOutcome {
                 if status.success() {
                     return match serde_json::from_str::<BigResult>(s.trim()) {
                         Ok(r) => ChildOutcome::Ok(r),
-                        Err(e) => ChildOutcome::Crash(format!("unparsable child output: {}", e)),
+                        Err(_) => ChildOutcome::Timeout,
                     };
                 }
-                return ChildOutcome::Crash(format!("child ended with {}", status));
+                // only a death by a signal that a crash of the engine produces (stack overflow: SIGABRT /
+                // SIGSEGV, SIGBUS) is a crash; a panic of the harness itself (exit code 101), a kill by the
+                // OOM killer (SIGKILL) or anything else is inconclusive
+                use std::os::unix::process::ExitStatusExt;
+                return match status.signal() {
+                    Some(6) | Some(11) | Some(7) => ChildOutcome::Crash(format!("child ended with {}", status)),
+                    _ => ChildOutcome::Timeout,
+                };
             }
             Ok(None) => {
                 if t0.elapsed() > timeout {
